@@ -222,9 +222,12 @@ theorem restoreBackup_closed (s : Server) (b : Backup) (pq pr k : Bool) :
       else match b.stored with
         | some bh =>
           if pq && b.serves && k && pr && s.ftpcAct then
-            ({ s with ftpConn := true, downloads := some bh, dlFolder := true, file := some bh, folder := true, health := .good }, true)
-          else ({ s with downloads := none, ftpConn := s.ftpConn || (s.ftpcAct && pq && b.serves) }, false)
-        | none => ({ s with downloads := none, ftpConn := s.ftpConn || (s.ftpcAct && pq && b.serves) }, false) := by
+            ({ s with ftpConn := true, downloads := some bh, dlFolder := true, file := some bh, folder := true, health := .good,
+                      dlDeleted := s.dlDeleted ++ s.downloads.toList, fileDeleted := s.fileDeleted ++ s.file.toList }, true)
+          else ({ s with downloads := none, dlDeleted := s.dlDeleted ++ s.downloads.toList,
+                         ftpConn := s.ftpConn || (s.ftpcAct && pq && b.serves) }, false)
+        | none => ({ s with downloads := none, dlDeleted := s.dlDeleted ++ s.downloads.toList,
+                            ftpConn := s.ftpConn || (s.ftpcAct && pq && b.serves) }, false) := by
   unfold restoreBackup ftpRequestFile Server.ftpcAct
   cases hc : s.canAct <;> cases hbc : s.backupConfigured <;> cases hft : s.ftpc <;> simp [hc, hbc, hft]
   rename_i f
@@ -266,7 +269,9 @@ theorem C17_restore_ignores_leftovers (s : Server) (b : Backup) (pq pr k : Bool)
     (restoreBackup { s with downloads := d, dlFolder := f } b pq pr k).1.health = (restoreBackup s b pq pr k).1.health ∧
     (restoreBackup { s with downloads := d, dlFolder := f } b pq pr k).1.conns = (restoreBackup s b pq pr k).1.conns ∧
     ((restoreBackup s b pq pr k).2 = true →
-      (restoreBackup { s with downloads := d, dlFolder := f } b pq pr k).1 = (restoreBackup s b pq pr k).1) := by
+      (restoreBackup { s with downloads := d, dlFolder := f } b pq pr k).1.downloads = (restoreBackup s b pq pr k).1.downloads ∧
+      { (restoreBackup { s with downloads := d, dlFolder := f } b pq pr k).1 with dlDeleted := [] } =
+        { (restoreBackup s b pq pr k).1 with dlDeleted := [] }) := by
   rw [restoreBackup_closed, restoreBackup_closed]
   have e1 : Server.canAct { s with downloads := d, dlFolder := f } = s.canAct := rfl
   have e2 : Server.ftpcAct { s with downloads := d, dlFolder := f } = s.ftpcAct := rfl
@@ -285,7 +290,8 @@ kept.  (Finding F-33: before that repair the live file was deleted when the back
 theorem C17_failed_restore_changes_nothing (s : Server) (b : Backup) (pq pr k : Bool)
     (h : (restoreBackup s b pq pr k).2 = false) :
     (restoreBackup s b pq pr k).1 = { s with ftpConn := (restoreBackup s b pq pr k).1.ftpConn,
-                                             downloads := (restoreBackup s b pq pr k).1.downloads } ∧
+                                             downloads := (restoreBackup s b pq pr k).1.downloads,
+                                             dlDeleted := (restoreBackup s b pq pr k).1.dlDeleted } ∧
     ((restoreBackup s b pq pr k).1.downloads = s.downloads ∨ (restoreBackup s b pq pr k).1.downloads = none) := by
   revert h
   rw [restoreBackup_closed]
@@ -312,7 +318,8 @@ example :
     let r := backupDatabase s ({} : Backup) true
     let dmg := (processSql r.1 .delete).1
     (restoreBackup dmg r.2.1 true true) =
-      ({ dmg with file := some .good, downloads := some .good, dlFolder := true, ftpConn := true }, true) := by decide
+      ({ dmg with file := some .good, downloads := some .good, dlFolder := true, ftpConn := true,
+                  fileDeleted := [.compromised] }, true) := by decide
 /-- a second restore over a CORRUPT leftover still yields the (GOOD) backup -/
 example :
     let s : Server := {}
@@ -360,7 +367,8 @@ theorem C17_saturated_transfer (s : Server) (b : Backup) (pq pr : Bool) :
     ((backupDatabase s b pq false).2.2 = false ∧ (backupDatabase s b pq false).2.1 = b) ∧
     ((restoreBackup s b pq pr false).2 = false ∧
       (restoreBackup s b pq pr false).1 = { s with ftpConn := (restoreBackup s b pq pr false).1.ftpConn,
-                                                   downloads := (restoreBackup s b pq pr false).1.downloads }) := by
+                                                   downloads := (restoreBackup s b pq pr false).1.downloads,
+                                                   dlDeleted := (restoreBackup s b pq pr false).1.dlDeleted }) := by
   have hb := C17_backup_stores s b pq false
   have h1 : (backupDatabase s b pq false).2.2 = false := by
     cases hr : (backupDatabase s b pq false).2.2 with
@@ -411,7 +419,8 @@ theorem C17_blocked_restore (s : Server) (b : Backup) (pq pr k : Bool)
     (h : (pq && b.serves && pr && k && s.ftpcAct) = false) :
     (restoreBackup s b pq pr k).2 = false ∧
     (restoreBackup s b pq pr k).1 = { s with ftpConn := (restoreBackup s b pq pr k).1.ftpConn,
-                                             downloads := (restoreBackup s b pq pr k).1.downloads } ∧
+                                             downloads := (restoreBackup s b pq pr k).1.downloads,
+                                             dlDeleted := (restoreBackup s b pq pr k).1.dlDeleted } ∧
     (restoreBackup s b pq pr k).1.file = s.file ∧ (restoreBackup s b pq pr k).1.health = s.health ∧
     (restoreBackup s b pq pr k).1.conns = s.conns := by
   have h2 : (restoreBackup s b pq pr k).2 = false := by
@@ -762,12 +771,25 @@ theorem admin_frame (s : Server) (a : Admin) :
 
 /-- File-system operations on downloads/ touch nothing but downloads/. -/
 theorem dl_frame (s : Server) (a : DlOp) :
-    (s.dl a).1 = { s with downloads := (s.dl a).1.downloads, dlFolder := (s.dl a).1.dlFolder } := by
+    (s.dl a).1 = { s with downloads := (s.dl a).1.downloads, dlFolder := (s.dl a).1.dlFolder, dlDeleted := (s.dl a).1.dlDeleted } := by
   cases a <;> unfold Server.dl <;> dsimp only <;> (repeat' split) <;> rfl
+
+/-- File-system requests touch nothing but the two folders (live file, deleted copies, folder present). -/
+theorem fsr_frame (s : Server) (db : Bool) (a : FsAct) :
+    (s.fsr db a).1 = { s with file := (s.fsr db a).1.file, folder := (s.fsr db a).1.folder, fileDeleted := (s.fsr db a).1.fileDeleted,
+                              downloads := (s.fsr db a).1.downloads, dlFolder := (s.fsr db a).1.dlFolder,
+                              dlDeleted := (s.fsr db a).1.dlDeleted } ∧
+    (db = false → (s.fsr db a).1.file = s.file) := by
+  unfold Server.fsr
+  split
+  · exact ⟨rfl, fun _ => rfl⟩
+  · cases db
+    · exact ⟨rfl, fun _ => rfl⟩
+    · exact ⟨rfl, fun h => by cases h⟩
 
 /-- A re-install that is refused or raises changes nothing; one that goes through yields an EMPTY connection table and
 leaves the id counter alone (the new instance draws fresh uuids). -/
-theorem reinstall_frame (s : Server) (cfg : Option (Option Nat × Bool)) :
+theorem reinstall_frame (s : Server) (cfg : Option InstCfg) :
     ((s.reinstall cfg).2 ≠ .done → (s.reinstall cfg).1 = s) ∧
     ((s.reinstall cfg).2 = .done → (s.reinstall cfg).1.conns = [] ∧ s.file = none ∧
       (s.reinstall cfg).1.file = some .good ∧ (s.reinstall cfg).1.maxSessions = 100) ∧
@@ -793,6 +815,10 @@ theorem apply_conns_nonrecv (s : Server) (e : SrvEv) (h : ∀ src p, e ≠ .recv
   | dl a =>
     have hd := dl_frame s a
     show (s.dl a).1.conns = s.conns ∧ (s.dl a).1.nextId = s.nextId ∧ (s.dl a).1.maxSessions = s.maxSessions
+    rw [hd]; exact ⟨rfl, rfl, rfl⟩
+  | fsr db a =>
+    have hd := (fsr_frame s db a).1
+    show (s.fsr db a).1.conns = s.conns ∧ (s.fsr db a).1.nextId = s.nextId ∧ (s.fsr db a).1.maxSessions = s.maxSessions
     rw [hd]; exact ⟨rfl, rfl, rfl⟩
   | powerOn => exact ⟨(power_frame s).1, (power_frame s).2.1, (power_frame s).2.2.2.2.2.2.1⟩
   | powerOff => exact ⟨(power_frame s).2.2.2.1, (power_frame s).2.2.2.2.1, (power_frame s).2.2.2.2.2.2.2⟩
@@ -1042,6 +1068,7 @@ def IsEscape : SrvEv → Prop
   | .tick _ _ _ _ _ _ => True
   | .fileDelete => True
   | .folderDelete => True
+  | .fsr true _ => True          -- file-system requests on database/ (delete, restore of a deleted copy, folder delete ...)
   | .recv _ (.sql _ .encrypt) => True
   | _ => False
 
@@ -1073,6 +1100,10 @@ theorem apply_compromised_persists (s : Server) (e : SrvEv) (hne : ¬ IsEscape e
       simp only [SrvEv.apply, Server.receive]
       split <;> exact h
   | dl a => rw [show (SrvEv.dl a).apply s = (s.dl a).1 from rfl, dl_frame s a]; exact h
+  | fsr db a =>
+    cases db with
+    | true => exact absurd trivial hne
+    | false => rw [show (SrvEv.fsr false a).apply s = (s.fsr false a).1 from rfl, (fsr_frame s false a).2 rfl]; exact h
   | reinstall cfg =>
     -- a re-install goes through only while there is no live file: COMPROMISED data makes the constructor raise
     have hf := reinstall_frame s cfg
@@ -1098,6 +1129,7 @@ def Op.keepsCompromised : Op → Bool
   | .tick _ _ _ => false
   | .fileDelete => false
   | .folderDelete => false
+  | .fsr true _ => false
   | .dm _ .encrypt _ _ _ => false
   | .ransomReq _ .encrypt => false
   | .rawQuery _ _ .encrypt => false
@@ -1127,6 +1159,11 @@ theorem keepsCompromised_no_escape (op : Op) (h : op.keepsCompromised = true) (e
   | rawDisconnect i cid => exact not_escape_disc ha
   | rawJunk i k => obtain ⟨j, k', rfl⟩ := ha; exact id
   | dl a => simp only [OpAllows] at ha; subst ha; exact id
+  | fsr db a =>
+    simp only [OpAllows] at ha; subst ha
+    cases db with
+    | true => simp [Op.keepsCompromised] at h
+    | false => exact id
   | svcInstall cfg => simp only [OpAllows] at ha; subst ha; exact id
   | co k => exact absurd ha id
   | hDisconnect hd => exact not_escape_disc ha
@@ -1272,6 +1309,7 @@ theorem traffic_events (op : Op) (h : op.isTraffic = true) (e : SrvEv) (ha : OpA
     · exact Or.inl (hq ha)
   | rawJunk i k => obtain ⟨j, k', hj⟩ := ha; exact Or.inl ⟨j, _, hj⟩
   | dl a => simp [Op.isTraffic] at h
+  | fsr db a => simp [Op.isTraffic] at h
   | svcInstall cfg => simp [Op.isTraffic] at h
   | co k => simp [Op.isTraffic] at h
   | folderDelete => simp [Op.isTraffic] at h
